@@ -11,6 +11,7 @@ var checks = map[string]func(*Ctx){
 	"C12":    runC12,
 	"C13":    runC13,
 	"C10":    runC10,
+	"C19":    runC19,
 	"C20":    runC20,
 	"C15":    runC15,
 	"C17":    runC17,
